@@ -14,7 +14,8 @@ import (
 
 func init() {
 	Register(&Scenario{
-		Prop: "C16", Run: scenarioC16, Race: true, Instrument: true, QuickRuns: 640, ThoroughRuns: 12800, Level: "exploration",
+		Prop: "C16", Run: scenarioC16, Race: true, Instrument: true, QuickRuns: 1600, ThoroughRuns: 40000, Level: "exploration",
+		FaultKinds: []string{"fault.cancel_in_reproduction"},
 		Rule:       "one run = one seeded world with the parallel executor turned over for 1..N epochs under one tape-chosen scheduling strategy (uniform random at every yield, run-to-completion in a random species order, round-robin, PCT-style priorities with change points); after every epoch the C01 well-formedness, C02 partition and C03 one-number-one-link oracles run; any Go race detector report is a violation. A case is one scheduled epoch; it is non-trivial when at least two reproduction goroutines ran and the schedule switched between them before one finished; distinct = distinct hash of the (task, yield tag) sequence",
 		RealParts:  []string{"ParallelPopulationEpochExecutor and everything below it", "real goroutines, sync.Mutex, sync/atomic, channel and WaitGroup of the library", "Go race detector (happens-before) as the oracle for the race half", "math/rand global source (locked) seeded from the tape"},
 		StubParts:  []string{"the Go scheduler's choice of which reproduction goroutine proceeds at a hook point (replaced by the tape)", "fitness assignment"},
@@ -30,7 +31,7 @@ func scenarioC16(c *RunCtx) {
 		maxPop, maxEpochs = 60, 20
 	}
 	spec := WorldSpec{
-		Prof:         OptProfile{MinPop: 3, MaxPop: maxPop, AllowStolen: true, SmallDropOff: t.Chance("smallDropOff", 1, 3), Parallel: 1, ManySpecies: t.Chance("manySpecies", 2, 3), Structural: 1},
+		Prof:         OptProfile{MinPop: 3, MaxPop: maxPop, AllowStolen: true, SmallDropOff: t.Chance("smallDropOff", 1, 3), Parallel: 1, ManySpecies: t.Chance("manySpecies", 2, 3), Structural: 1, ActivationSwarm: true},
 		Genome:       GenomeSpec{AllowDisabled: true, MaxHidden: 3},
 		AllowShipped: true,
 	}
@@ -40,8 +41,15 @@ func scenarioC16(c *RunCtx) {
 		c.Skip("constructor-error")
 	}
 	sched := NewSched(t)
+	sched.Lazy = Instrumented
 	genetics.Verif = sched.Hooks()
 	defer func() { genetics.Verif = nil }()
+	// fault: the context is cancelled at the k-th offspring of a chosen epoch, i.e. inside the reproduction of some
+	// species while the others are parked wherever the schedule left them
+	faultEpoch, faultK := -1, 0
+	if t.Chance("cancel.fault", 1, 5) {
+		faultEpoch, faultK = t.Draw("cancel.epoch", 4), t.Draw("cancel.k", 12)
+	}
 	c.Sample = "sched=" + sched.StrategyName() + " " + w.Describe()
 	c.Op("world: %s", c.Sample)
 	po := newPartitionOracle(w.Pop)
@@ -54,8 +62,34 @@ func scenarioC16(c *RunCtx) {
 		prevSwitches, prevYields, prevHash := sched.Switches, sched.Yields, sched.TraceHash
 		nSpecies := len(w.Pop.Species)
 		prevMaxInnov := ledger.MaxInnov
-		snap := StepEpoch(c, w, false, nil, c.Lib)
+		sched.CancelAt = -1
+		if e == faultEpoch {
+			sched.CancelAt, sched.OnCancel = faultK, w.Cancel
+		}
+		snap := StepEpoch(c, w, false, &EpochHooks{KeepHooks: func() bool { return sched.Pending() > 0 }}, c.Lib)
 		c.Steps++
+		if n := sched.Pending(); n > 0 {
+			// NextEpoch has returned although reproduction goroutines of this turnover are still alive. The caller does
+			// what callers do next (assign fitness, look at the species) and the stragglers run on: the race detector
+			// judges the accesses; goroutines outliving the call are reported in any case.
+			c.Count("probe.goroutines_outlive_epoch")
+			w.AssignFitness()
+			for _, sp := range w.Pop.Species {
+				sp.ExpectedOffspring = sp.ExpectedOffspring + 0
+			}
+			sched.Drain()
+			c.Fail("goroutines-outlive-epoch", "world [start=%s] parallel NextEpoch(generation %d) returned (err=%v) while %d reproduction goroutine(s) of that turnover were still running; they went on using the population after the call had returned", w.KindName, e, snap.Err, n)
+		}
+		if sched.Cancelled {
+			c.Count("fault.cancel_in_reproduction")
+			c.Op("epoch %d: context cancelled at offspring %d of the turnover, NextEpoch returned %v", e, faultK, snap.Err)
+			if snap.Err == nil {
+				// the cancellation came too late to be noticed by anybody: a complete, ordinary turnover
+				c.Count("observe.cancel_unnoticed")
+			} else {
+				return // a cancelled turnover leaves the population half-way; nothing more is demanded of it
+			}
+		}
 		c.Op("epoch %d: %d species, %d scheduling decisions, %d switches, err=%v", e, nSpecies, sched.Yields-prevYields, sched.Switches-prevSwitches, snap.Err)
 		if snap.Err != nil {
 			c.Fail("epoch-error", "world [start=%s] parallel NextEpoch(generation %d) returned error: %v", w.KindName, e, snap.Err)
